@@ -354,6 +354,25 @@ def apply_replacements(body, repls, item):
     return body
 
 
+def desugar_option_map(body, recv, item):
+    """`recv.map(|p| e)` -> `match recv { Some(p) => Some(e), None => None }` (the definition of Option::map).
+    Verus knows nothing about the result of an un-annotated closure; the match form is what the closure call means."""
+    m = mask(body)
+    pat = re.compile(re.escape(recv) + r"\s*\.\s*map\s*\(\s*\|([^|]*)\|")
+    ms = list(pat.finditer(m))
+    if len(ms) != 1:
+        raise AnchorLost("%s: `%s.map(|..| ..)` found %d times" % (item.ident, recv, len(ms)))
+    mm = ms[0]
+    par = m.find("(", mm.start() + len(recv))
+    s2 = Src("<mem>", body)
+    close = s2.match_close(par)
+    param = body[mm.start(1):mm.end(1)].strip()
+    expr = body[mm.end():close].strip()
+    new = "match %s { Some(%s) => Some(%s), None => None }" % (recv, param, expr)
+    item.rewrites.append({"old": body[mm.start():close + 1], "new": new, "note": "std-equivalent: Option::map(closure) desugared to its defining match"})
+    return body[:mm.start()] + new + body[close + 1:]
+
+
 def apply_befores(body, befores, item):
     """Insert proof scaffolding text before the unique occurrence of an anchor text."""
     for anchor, txt in befores:
@@ -468,6 +487,8 @@ def render_fn(s, loc, contract, opts, item, indent=""):
         body = splice_loops(s, loc["body_open"], loc["body_close"], opts.get("loops"), item, opts.get("places"))
         body = apply_replacements(body, opts.get("repls", []), item)
         body = apply_befores(body, opts.get("befores", []), item)
+        for recv in opts.get("desugars", []):
+            body = desugar_option_map(body, recv, item)
         for bind, ty in opts.get("annotates", []):
             pat = re.compile(re.escape(bind) + r"\s*=")
             ms = list(pat.finditer(body))
@@ -735,6 +756,7 @@ class Gen:
         sigsub = []
         befores = []
         annotates = []
+        desugars = []
         places = {}
         anchor = None
         cur = contract
@@ -805,6 +827,11 @@ class Gen:
                     annotates.append((toks[1], toks[2]))
                     i += 1
                     continue
+                if d == "desugar_option_map":
+                    # //@desugar_option_map <receiver>: `<receiver>.map(|p| body)` -> `match <receiver> { Some(p) => Some(body), None => None }`
+                    desugars.append(toks[1])
+                    i += 1
+                    continue
                 if d == "sigsub":
                     sigsub.append((toks[1], toks[2]))
                     i += 1
@@ -822,7 +849,7 @@ class Gen:
             i += 1
         for k in loops:
             loops[k]["text"] = "\n".join(loops[k].pop("_buf"))
-        return "\n".join(contract), {"loops": loops, "repls": repls, "sigsub": sigsub, "befores": befores, "annotates": annotates,
+        return "\n".join(contract), {"loops": loops, "repls": repls, "sigsub": sigsub, "befores": befores, "annotates": annotates, "desugars": desugars,
                                     "places": {k: "\n".join(v) for k, v in places.items()}}, i, term
 
     def vac(self, contract, ident=None):
@@ -846,6 +873,10 @@ class Gen:
         ts = [s.find_type(nm) for nm in names] if names else [t for t in s.all_types() if t["name"] not in exclude]
         for t in ts:
             txt, dropped, notes = render_type(s, t, opts)
+            for a, b in self.substs:
+                if a in txt:
+                    txt = txt.replace(a, b)
+                    self.notes.append("in type %s: `%s` rewritten to `%s`" % (t["name"], a, b))
             rng = self.emit("// ---- type %s from %s:%d" % (t["name"], rel, s.line_of(t["start"])))
             self.emit(txt)
             for dd in dropped:
